@@ -29,6 +29,9 @@
 //!   rs  P seed nblocks level            random read/read_exact/seek op sequences, MT vs ST, delayed inflate tasks
 //!   rfd P seed level                    frame-level error, then seek, then finish: the error must not vanish
 //!   rce P seed                          P+5 corrupt blocks, the caller keeps reading: every read must return
+//!   wcfg P path ops seed dk             MultithreadedWriter built along every construction path (new, with_worker_count,
+//!                                       Builder setter chains in any order, repeated) == ST Writer at the last level set
+//!   rcfg P path frames seed level dk    MultithreadedReader::new / with_worker_count read to the end == ST Reader
 
 use std::{
     collections::{HashSet, VecDeque},
@@ -2026,6 +2029,294 @@ fn gen_rh(rng: &mut Rng, w: &mut CaseWriter, n: u64) {
 // -------------------------------------------------------------------------------------------
 // generation
 
+// -------------------------------------------------------------------------------------------
+// wcfg / rcfg: every CONSTRUCTION PATH of the multithreaded writer / reader (implementation-only
+// oracle).  The property speaks of "the same compression level": whatever way the level reaches
+// the writer -- MultithreadedWriter::new, the deprecated with_worker_count, or a Builder chain with
+// the setters in ANY order and repeated (set_compression_level before / after / between
+// set_worker_count) -- the effective level is the LAST one set (the default if none was set), and
+// the output equals byte for byte the single-threaded Writer's at that level.  No gate: the
+// schedule is whatever the pool does (the scheduled kinds cover the orders).
+//   wcfg P path ops seed dk     path = new | wwc:<n> | b[:tok,tok..] with tok = L<level> | W<n>
+//   rcfg P path frames seed level dk   path = new | wwc:<n>
+
+#[allow(deprecated)]
+fn build_mt_writer_by_path(path: &str, sink: FaultySink) -> bgzf::io::MultithreadedWriter<FaultySink> {
+    use std::num::NonZero;
+    if path == "new" {
+        return bgzf::io::MultithreadedWriter::new(sink);
+    }
+    if let Some(n) = path.strip_prefix("wwc:") {
+        let n: usize = n.parse().expect("wwc");
+        return bgzf::io::MultithreadedWriter::with_worker_count(NonZero::new(n).expect("nonzero"), sink);
+    }
+    let mut b = bgzf::io::multithreaded_writer::Builder::default();
+    for tok in cfg_tokens(path) {
+        let v: u64 = tok[1..].parse().expect("cfg token");
+        b = match tok.as_bytes()[0] {
+            b'L' => b.set_compression_level(level_of(v)),
+            b'W' => b.set_worker_count(NonZero::new(v as usize).expect("nonzero")),
+            _ => panic!("cfg token {tok}"),
+        };
+    }
+    b.build_from_writer(sink)
+}
+
+fn cfg_tokens(path: &str) -> Vec<&str> {
+    match path.strip_prefix("b:") {
+        Some(t) => t.split(',').collect(),
+        None => vec![],
+    }
+}
+
+/// the level the path asks for: the last level set; None = the default
+fn cfg_level(path: &str) -> Option<u64> {
+    cfg_tokens(path).iter().rev().find(|t| t.starts_with('L')).map(|t| t[1..].parse().expect("level"))
+}
+
+fn drive_ops<W: Write>(w: &mut W, ops: &[Op], data: &[u8]) -> io::Result<()> {
+    let mut off = 0;
+    for o in ops {
+        match *o {
+            Op::W(n) => {
+                w.write_all(&data[off..off + n])?;
+                off += n;
+            }
+            Op::F => w.flush()?,
+        }
+    }
+    Ok(())
+}
+
+fn run_wcfg(c: &Case) -> Obs {
+    let p = c.u(0);
+    if let Err(o) = check_pool(p) {
+        return o;
+    }
+    let path = c.args[1].clone();
+    let ops = parse_ops(&c.args[2]);
+    let data = Arc::new(gen_data(c.u(3), total_bytes(&ops), c.u(4)));
+    let want = cfg_level(&path);
+    let ctx = format!("P={p} path={path} level={} ops={}", want.map_or("default".to_string(), |l| l.to_string()), c.args[2]);
+    verif_gate::set(None);
+
+    // single-threaded references: every construction path of Writer that yields that level
+    let mut st_refs: Vec<(&str, Vec<u8>)> = vec![];
+    let st_paths: &[&str] = if want.is_none() { &["new", "builder-default"] } else { &["builder-level"] };
+    for &sp in st_paths {
+        let sink = FaultySink::new(vec![]);
+        let (s2, ops2, data2) = (sink.clone(), ops.clone(), data.clone());
+        let r = nv::guarded(AssertUnwindSafe(move || {
+            let mut w = match (sp, want) {
+                ("new", _) => bgzf::io::Writer::new(s2),
+                (_, None) => bgzf::io::writer::Builder::default().build_from_writer(s2),
+                (_, Some(l)) => bgzf::io::writer::Builder::default()
+                    .set_compression_level(level_of(l))
+                    .build_from_writer(s2),
+            };
+            let r = drive_ops(&mut w, &ops2, &data2).and_then(|()| w.try_finish());
+            let _ = w.into_inner();
+            r
+        }));
+        match r {
+            Outcome::Done(Ok(())) => st_refs.push((sp, sink.bytes())),
+            Outcome::Done(Err(e)) => return Obs::fail("-", "stw-error-without-fault", format!("{ctx} st-path={sp} {}", nv::errkind(&e))),
+            Outcome::Panicked(m) => return Obs::fail("-", "stw-panic", format!("{ctx} st-path={sp} {m}")),
+        }
+    }
+    if st_refs.len() == 2 && st_refs[0].1 != st_refs[1].1 {
+        return Obs::fail("-", "stw-construction-paths-disagree", format!("{ctx} Writer::new vs writer::Builder::default()"));
+    }
+    let st_bytes = &st_refs[0].1;
+
+    // multithreaded, built along the path
+    let mt_sink = FaultySink::new(vec![]);
+    let (s2, ops2, data2, path2) = (mt_sink.clone(), ops.clone(), data.clone(), path.clone());
+    let (tx, rx) = mpsc::channel();
+    thread::spawn(move || {
+        let r = nv::guarded(AssertUnwindSafe(move || {
+            let mut w = build_mt_writer_by_path(&path2, s2);
+            drive_ops(&mut w, &ops2, &data2).and_then(|()| w.finish().map(|_| ()))
+        }));
+        let _ = tx.send(r);
+    });
+    let r = rx.recv_timeout(LIMIT.0);
+    quiesce();
+    let nblocks = count_blocks(&ops);
+    let nontrivial = nblocks >= 2 && cfg_tokens(&path).len() >= 2;
+    let o = Obs::ok("-", nontrivial);
+    match r {
+        Err(_) => return Obs::fail("-", "mtw-cfg-hang", &ctx),
+        Ok(Outcome::Panicked(m)) => return Obs::fail("-", "mtw-cfg-panic", format!("{ctx} {m}")),
+        Ok(Outcome::Done(Err(e))) => {
+            return o.with_verdict(Err(("mtw-error-without-fault".into(), format!("{ctx} {}", nv::errkind(&e)))));
+        }
+        Ok(Outcome::Done(Ok(()))) => {}
+    }
+    let mt_bytes = mt_sink.bytes();
+    if &mt_bytes != st_bytes {
+        // which class of path: what comes after the last level setter?
+        let toks = cfg_tokens(&path);
+        let tag = if path == "new" || path.starts_with("wwc:") {
+            "mtw-constructor-output-differs-from-st"
+        } else if want.is_none() {
+            "mtw-builder-default-level-output-differs-from-st"
+        } else if toks.last().is_some_and(|t| t.starts_with('W')) {
+            "mtw-builder-level-lost-after-later-setter"
+        } else if toks.iter().filter(|t| t.starts_with('L')).count() > 1 {
+            "mtw-builder-repeated-level-not-last-wins"
+        } else {
+            "mtw-builder-level-output-differs-from-st"
+        };
+        // does the output carry the data at all, and which level does it look like?
+        let (_, mt_payloads) = sink_obs(&mt_bytes, 0, false, &data);
+        let same_data = mt_payloads.concat() == data[..];
+        let looks_like: Vec<String> = (0..=9u64)
+            .filter(|&l| {
+                let mut w = bgzf::io::writer::Builder::default()
+                    .set_compression_level(level_of(l))
+                    .build_from_writer(Vec::new());
+                drive_ops(&mut w, &ops, &data).is_ok() && w.finish().is_ok_and(|v| v == mt_bytes)
+            })
+            .map(|l| l.to_string())
+            .collect();
+        return o.with_verdict(Err((
+            tag.into(),
+            format!(
+                "{ctx} mt={}B st={}B data_round_trips={same_data} mt_equals_st_at_levels=[{}]",
+                mt_bytes.len(),
+                st_bytes.len(),
+                looks_like.join(",")
+            ),
+        )));
+    }
+    o
+}
+
+#[allow(deprecated)]
+fn run_rcfg(c: &Case) -> Obs {
+    use std::num::NonZero;
+    let p = c.u(0);
+    if let Err(o) = check_pool(p) {
+        return o;
+    }
+    let path = c.args[1].clone();
+    let lens: Vec<usize> = c.args[2].split(',').map(|x| x.parse().expect("len")).collect();
+    let (file, data) = build_file(&lens, c.u(3), c.u(4), c.u(5));
+    let ctx = format!("P={p} path={path} frames={}", c.args[2]);
+    verif_gate::set(None);
+
+    let mut st_out = vec![];
+    let st_res = {
+        let f = file.clone();
+        nv::guarded(AssertUnwindSafe(|| {
+            let mut r = bgzf::io::reader::Builder::default().build_from_reader(Cursor::new(f));
+            let mut v = vec![];
+            let res = r.read_to_end(&mut v).map_err(|e| nv::errkind(&e));
+            (res, v, u64::from(r.virtual_position()))
+        }))
+    };
+    let st = match st_res {
+        Outcome::Done(x) => x,
+        Outcome::Panicked(m) => return Obs::fail("-", "str-panic", format!("{ctx} {m}")),
+    };
+    st_out.extend_from_slice(&st.1);
+
+    let (f2, path2) = (file.clone(), path.clone());
+    let (tx, rx) = mpsc::channel();
+    thread::spawn(move || {
+        let r = nv::guarded(AssertUnwindSafe(move || {
+            let mut r = match path2.strip_prefix("wwc:") {
+                Some(n) => bgzf::io::MultithreadedReader::with_worker_count(
+                    NonZero::new(n.parse::<usize>().expect("wwc")).expect("nonzero"),
+                    Cursor::new(f2),
+                ),
+                None => bgzf::io::MultithreadedReader::new(Cursor::new(f2)),
+            };
+            let mut v = vec![];
+            let res = r.read_to_end(&mut v).map_err(|e| nv::errkind(&e));
+            let vp = u64::from(r.virtual_position());
+            let fin = r.finish().map(|_| ()).map_err(|e| nv::errkind(&e));
+            (res, v, vp, fin)
+        }));
+        let _ = tx.send(r);
+    });
+    let r = rx.recv_timeout(LIMIT.0);
+    quiesce();
+    let o = Obs::ok("-", lens.len() >= 3);
+    let mt = match r {
+        Err(_) => return Obs::fail("-", "mtr-cfg-hang", &ctx),
+        Ok(Outcome::Panicked(m)) => return Obs::fail("-", "mtr-cfg-panic", format!("{ctx} {m}")),
+        Ok(Outcome::Done(x)) => x,
+    };
+    let class = if path == "new" { "new" } else { "with-worker-count" };
+    if mt.0 != st.0 || mt.1 != st_out || st_out != data {
+        return o.with_verdict(Err((
+            format!("mtr-{class}-data-differs-from-st"),
+            format!("{ctx} mt={:?}/{}B st={:?}/{}B data={}B", mt.0, mt.1.len(), st.0, st_out.len(), data.len()),
+        )));
+    }
+    if mt.2 != st.2 {
+        return o.with_verdict(Err((format!("mtr-{class}-position-differs-from-st"), format!("{ctx} mt={} st={}", mt.2, st.2))));
+    }
+    if let Err(k) = mt.3 {
+        return o.with_verdict(Err((format!("mtr-{class}-finish-error"), format!("{ctx} {k}"))));
+    }
+    o
+}
+
+fn gen_cfg(rng: &mut Rng, w: &mut CaseWriter, n: u64) {
+    const LEVELS: [u64; 6] = [0, 1, 3, 6, 8, 9];
+    for i in 0..n {
+        let p = [2u64, 4][(i % 2) as usize];
+        let path = match i % 8 {
+            // the two orders of one level and one worker count, the non-default levels first
+            0 => format!("b:L{},W{}", [0u64, 1, 9, 3][((i / 8) % 4) as usize], rng.range(1, 8)),
+            1 => format!("b:W{},L{}", rng.range(1, 8), [0u64, 1, 9, 3][((i / 8) % 4) as usize]),
+            2 => "new".to_string(),
+            3 => format!("wwc:{}", rng.range(1, 8)),
+            4 => match (i / 8) % 3 {
+                0 => "b".to_string(),
+                1 => format!("b:W{}", rng.range(1, 8)),
+                _ => format!("b:L{}", rng.pick(&LEVELS)),
+            },
+            // random chains of 2..5 setters, repeats allowed
+            _ => {
+                let k = rng.range(2, 5);
+                let toks: Vec<String> = (0..k)
+                    .map(|_| if rng.chance(1, 2) { format!("L{}", rng.pick(&LEVELS)) } else { format!("W{}", rng.range(1, 8)) })
+                    .collect();
+                format!("b:{}", toks.join(","))
+            }
+        };
+        // enough compressible data for the levels to differ: a few blocks, one of them large
+        let mut ops = gen_ops(rng, false);
+        ops.push(Op::W(rng.range(20000, 70000) as usize));
+        if rng.chance(1, 2) {
+            ops.push(Op::F);
+            ops.push(Op::W(rng.range(1, 3000) as usize));
+        }
+        w.push("wcfg", vec![p.to_string(), path, fmt_ops(&ops), rng.next().to_string(), "1".into()]);
+    }
+    for i in 0..(n / 4).max(4) {
+        let p = [2u64, 4][(i % 2) as usize];
+        let path = if i % 2 == 0 { "new".to_string() } else { format!("wwc:{}", rng.range(1, 8)) };
+        let k = rng.range(1, 6);
+        let lens: Vec<String> = (0..k)
+            .map(|_| match rng.below(5) {
+                0 => 0,
+                1 => 65280,
+                _ => rng.range(1, 5000),
+            })
+            .map(|l| l.to_string())
+            .collect();
+        w.push(
+            "rcfg",
+            vec![p.to_string(), path, lens.join(","), rng.next().to_string(), rng.pick(&[1u64, 6]).to_string(), "1".into()],
+        );
+    }
+}
+
 fn gen_ops(rng: &mut Rng, big: bool) -> Vec<Op> {
     let n = rng.range(2, 9);
     let mut ops = vec![];
@@ -2304,6 +2595,8 @@ fn generate(rng: &mut Rng, tier: &str, w: &mut CaseWriter) {
     }
     // the writer at API-call level against NV.Sinks.MtApp (last: the earlier kinds keep their cases)
     gen_wapi(rng, w, 10 * scale);
+    // construction paths (builder setter orders, constructors) -- after wapi for the same reason
+    gen_cfg(rng, w, 24 * scale);
 }
 
 fn permute(p: &mut Vec<usize>, k: usize, out: &mut Vec<Vec<usize>>) {
@@ -2346,13 +2639,15 @@ fn run(c: &Case) -> Obs {
         "rhst" | "rhstv" | "rhste" => run_rhst(c),
         "rfd" => run_rfd(c),
         "rce" => run_rce(c),
+        "wcfg" => run_wcfg(c),
+        "rcfg" => run_rcfg(c),
         k => Obs::fail("-", "harness-unknown-kind", k),
     }
 }
 
 fn case_pool(c: &Case) -> u64 {
     match c.kind.as_str() {
-        "w" | "wapi" | "wbr" | "r" | "rs" | "rh" | "rhv" | "rhe" | "rfd" | "rce" => c.u(0),
+        "w" | "wapi" | "wbr" | "r" | "rs" | "rh" | "rhv" | "rhe" | "rfd" | "rce" | "wcfg" | "rcfg" => c.u(0),
         _ => 4,
     }
 }
